@@ -42,6 +42,16 @@ ONE = {
     'C13d': 'the MRO walk of the metaclass stops at the first remote-aware __getstate__: a reduce hook further up no longer wins, and a remote/plain/remote chain is no longer rejected',
     'C17d': '_get_restart_args forwards only truthy options: userid 0, run=False, set_names=False and an empty / zero user_state are lost across restart()',
     'C19b': 'active_children() prunes in two critical sections: a registration in between is lost',
+    'C02e': 'RemoteWorker records main_path only when the target itself lives in __main__: a library target whose ARGUMENTS are main-script objects cannot be unpickled by an independent server',
+    'C03e': 'ThreadWorker.terminate releases the child (end marker) BEFORE raising the request in it: an idle persistent thread worker woken first finishes cleanly, terminate() then raises ValueError and the outcome is a normal one',
+    'C07e': 'try_enqueue books the input on a worker found dead while enqueueing without counting it as pending: the bookkeeping of outstanding inputs no longer adds up',
+    'C09e': 'Pool._retries becomes a deque created once in __init__ and the per-run reset is dropped: inputs left waiting by a run that failed with PoolError are served by the next run',
+    'C12e': 'the backend tolerates EOF on the start-up pipe: a worker whose server is stopped while it is still starting up runs its target as an orphan for ever (it is in nobody\'s list yet)',
+    'C14e': 'patched_setstate splits any 2-tuple state into (dict, slots) before the class\'s own __setstate__ sees it: a class whose state is a pair gets only its first half',
+    'C15e': 'the frame stack moves into a threading.local subclass with __slots__ for stack/iter/unused: slots of a threading.local subclass are shared by all threads, concurrent loads interfere',
+    'C16e': 'the remote front end reads the state message only when the result value is not None: a target that returns None leaves the parent with the initial user_state',
+    'C18e': 'the server tests the context id of a worker request for truth instead of "is not None": workers for a context registered under 0, \'\' or False are created as plain workers without target',
+    'C19e': 'the registry of active children becomes a dict keyed by worker id (setdefault): a new worker whose id equals that of a dead, not yet pruned one is never registered',
 }
 for d in sorted(glob.glob('/verif/seeded/*/')):
     sid = os.path.basename(d.rstrip('/'))
